@@ -735,3 +735,485 @@ def c03(p, tier, work, t0, replay):
 
 
 PROPS["C03"] = c03
+
+
+# ---------------------------------------------------------------------------------------------
+# process-level layers for C17 (detect / sensor CLI / daemon start-up binding) and C15 (restarts of the
+# real daemon, `fan reset`, `fan init`)
+
+def merge_local(merged, local, lock, sample_kind):
+    with lock:
+        merged.evaluations += local.evaluations
+        merged.nontrivial |= local.nontrivial
+        merged.inconclusive += local.inconclusive
+        for k, v in local.counters.items():
+            merged.counters[k] = merged.counters.get(k, 0) + v
+        for k, v in local.sets.items():
+            merged.sets.setdefault(k, set()).update(v)
+        for s in local.samples:
+            if not any(isinstance(x, dict) and x.get("kind") == sample_kind for x in merged.samples):
+                merged.samples.append(s)
+        for sig, v in local.violations.items():
+            merged.add_violation(sig, v["detail"], v.get("replay"), v["count"])
+
+
+def run_l2(fn, n, merged, kind, seed_mul, workers=8):
+    import concurrent.futures
+    lock = threading.Lock()
+    rng = random.Random(vcheck.seed() * seed_mul + 11)
+    seeds = [rng.random() for _ in range(n)]
+
+    def one(i):
+        local = vcheck.Merged(merged.prop)
+        try:
+            fn(i, random.Random(seeds[i]), local)
+        except Exception as e:  # orchestrator trouble is never a verdict
+            import traceback
+            local.inconclusive.append("process-level scenario %d failed in the orchestrator: %s" % (i, traceback.format_exc()[-600:].replace("\n", " | ")))
+        merge_local(merged, local, lock, kind)
+    with concurrent.futures.ThreadPoolExecutor(max_workers=workers) as ex:
+        list(ex.map(one, range(n)))
+
+
+C17_NAMES = ["nct6798", "it8620", "coretemp", "acpitz", "amdgpu", "k10temp", "corsaircpro", "nvme"]
+
+
+def run_cli(binary, work, cfg_path, tree_root, args, timeout=60, driver=None):
+    env = dict(os.environ)
+    env.pop("DISPLAY", None)
+    env["FAN2GO_VERIF_HWMON_ROOT"] = tree_root
+    env["FAN2GO_VERIF_TIMESCALE"] = "10"
+    env["HOME"] = work
+    if driver:
+        env["FAN2GO_VERIF_DRIVER"] = driver
+    try:
+        p = subprocess.run([binary, "-c", cfg_path, "--no-style"] + args, stdout=subprocess.PIPE, stderr=subprocess.STDOUT, env=env, cwd=work, timeout=timeout, text=True, errors="replace")
+        return p.returncode, p.stdout
+    except subprocess.TimeoutExpired as e:
+        return None, (e.stdout or "")
+
+
+def c17_l2_scenario(binary, work, idx, rng, merged):
+    sd = os.path.join(work, "c17-%d" % idx)
+    root = os.path.join(sd, "hwmon")
+    os.makedirs(root, exist_ok=True)
+    n = rng.randint(1, 4)
+    names = rng.sample(C17_NAMES, n)
+    chips = []
+    uniq = [5000]
+
+    def u():
+        uniq[0] += 1
+        return uniq[0]
+    contents = {}
+    for i in range(n):
+        d = os.path.join(root, "hwmon%d" % i)
+        os.makedirs(d)
+        l2.write(os.path.join(d, "name"), names[i] + "\n")
+        fans = [c for c in range(1, 7) if rng.random() < 0.5]
+        temps = [c for c in range(1, 7) if rng.random() < 0.5] or [1]
+        for c in range(1, 7):
+            l2.write(os.path.join(d, "pwm%d" % c), "%d\n" % rng.randint(60, 200))
+            l2.write(os.path.join(d, "pwm%d_enable" % c), "2\n")
+        for c in fans:
+            l2.write(os.path.join(d, "fan%d_input" % c), "%d\n" % u())
+        for c in temps:
+            v = u() * 10
+            contents[os.path.join(d, "temp%d_input" % c)] = v
+            l2.write(os.path.join(d, "temp%d_input" % c), "%d\n" % v)
+        chips.append({"dir": d, "name": names[i], "fans": fans, "temps": temps})
+    order = list(range(n))
+    rng.shuffle(order)
+    l2.write(os.path.join(root, "ORDER"), "\n".join("hwmon%d" % i for i in order) + "\n")
+    tree_desc = [{"name": c["name"], "fans": c["fans"], "temps": c["temps"]} for c in chips]
+    # --- selectors
+    chip_s = rng.randrange(n)
+    s_index = rng.randint(1, 7)
+    chip_f = rng.randrange(n)
+    by_channel = rng.random() < 0.5
+    f_sel = rng.randint(1, 7)
+    if rng.random() < 0.6 and chips[chip_f]["fans"]:
+        # mostly selectors of existing devices
+        f_sel = rng.choice(chips[chip_f]["fans"]) if by_channel else rng.randint(1, len(chips[chip_f]["fans"]))
+    if rng.random() < 0.6:
+        s_index = rng.randint(1, len(chips[chip_s]["temps"]))
+    pwm_ch = rng.choice([0, 0, rng.randint(1, 6)])
+    unknown = rng.random() < 0.12
+    fan_platform = "nosuchchip" if unknown else chips[chip_f]["name"]
+    sens_file = os.path.join(sd, "filesensor")
+    l2.write(sens_file, "44000\n")
+    cfg = """dbPath: {sd}/fan2go.db
+tempSensorPollingRate: 10ms
+rpmPollingRate: 10ms
+controllerAdjustmentTickRate: 10ms
+fanResponseDelay: 0
+sensors:
+  - id: hw_sensor
+    hwmon:
+      platform: {sp}
+      index: {si}
+  - id: plain
+    file:
+      path: {sf}
+curves:
+  - id: lin
+    linear:
+      sensor: plain
+      min: 30
+      max: 70
+  - id: lin2
+    linear:
+      sensor: hw_sensor
+      min: 30
+      max: 70
+fans:
+  - id: hw_fan
+    hwmon:
+      platform: {fp}
+      {sel}: {fs}{pc}
+    curve: lin
+    controlAlgorithm: direct
+""".format(sd=sd, sp=chips[chip_s]["name"], si=s_index, sf=sens_file, fp=fan_platform, sel="rpmChannel" if by_channel else "index", fs=f_sel,
+           pc=("\n      pwmChannel: %d" % pwm_ch) if pwm_ch else "")
+    cfg_path = os.path.join(sd, "fan2go.yaml")
+    l2.write(cfg_path, cfg)
+    case = {"tree": tree_desc, "order": order, "sensor": {"chip": chips[chip_s]["name"], "index": s_index},
+            "fan": {"platform": fan_platform, "rpmChannel" if by_channel else "index": f_sel, "pwmChannel": pwm_ch}}
+    # reference
+    temps = sorted(chips[chip_s]["temps"])
+    want_temp = os.path.join(chips[chip_s]["dir"], "temp%d_input" % temps[s_index - 1]) if s_index <= len(temps) else None
+    fl = sorted(chips[chip_f]["fans"])
+    ch = None
+    if not unknown:
+        if by_channel:
+            ch = f_sel if f_sel in fl else None
+        elif f_sel <= len(fl):
+            ch = fl[f_sel - 1]
+    want_rpm = os.path.join(chips[chip_f]["dir"], "fan%d_input" % ch) if ch else None
+    want_pwm = os.path.join(chips[chip_f]["dir"], "pwm%d" % (pwm_ch or ch)) if ch else None
+    # --- detect
+    rc, out = run_cli(binary, sd, cfg_path, root, ["detect"])
+    merged.evaluations += 1
+    if rc is None or l2.has_panic(out or ""):
+        merged.add_violation("detect-crashes", "%s\n%s" % (json.dumps(case), (out or "")[-1500:]), case)
+    else:
+        for c in chips:
+            if c["name"] not in out:
+                merged.add_violation("detect-misses-a-chip", "%s missing in\n%s" % (c["name"], out[-1500:]), case)
+    # --- sensor CLI: the printed value identifies the file that was read
+    rc, out = run_cli(binary, sd, cfg_path, root, ["sensor", "--id", "hw_sensor"])
+    merged.evaluations += 1
+    if rc is None or l2.has_panic(out or ""):
+        merged.add_violation("sensor-cli:panic:" + ("missing-index" if want_temp is None else "existing"), "%s\n%s" % (json.dumps(case), (out or "")[-1500:]), case)
+    elif want_temp is not None:
+        m = re.search(r"(\d+)\s*$", out.strip())
+        if rc != 0 or not m or int(m.group(1)) != contents[want_temp]:
+            merged.add_violation("sensor-cli:bound-to-wrong-device", "%s: printed %r (exit %s), the named input %s holds %d" % (json.dumps(case), out.strip()[-80:], rc, want_temp, contents[want_temp]), case)
+        else:
+            merged.nontrivial.add("l2-sensor|%d|%d|%s" % (n, s_index, order))
+    else:
+        if rc == 0 and re.search(r"^\d+$", out.strip()):
+            merged.add_violation("sensor-cli:non-existing-index-silently-bound", "%s: printed %s" % (json.dumps(case), out.strip()), case)
+        merged.counters["l2_sensor_cli_missing_index_rejected"] = merged.counters.get("l2_sensor_cli_missing_index_rejected", 0) + 1
+    # --- daemon start-up: which device files does it touch?
+    d = l2.Daemon(binary, sd, cfg, root, driver={"rules": [], "plants": []}, timescale=10)
+    try:
+        started = d.wait_for(r"Gathering sensor data for|Error initializing|rror", 60)
+        time.sleep(0.3)
+        if d.p.poll() is None:
+            d.signal(_signal.SIGTERM)
+        rc = d.wait(90)
+        out = d.output()
+        merged.evaluations += 1
+        events = d.events()
+        sensor_ok = want_temp is not None
+        # a start-up that is refused with fan2go's own fatal exit (message + deliberate panic on the main goroutine) is a
+        # clean failure when devices are missing; with existing devices any panic is a crash
+        pm = l2.has_panic(out, allow_startup_fatal=not (sensor_ok and ch))
+        if pm:
+            cls = "existing-devices" if (sensor_ok and ch) else ("missing-sensor-index" if not sensor_ok else ("unknown-platform" if unknown else "missing-fan"))
+            merged.add_violation("daemon-start-up-panics:" + cls, "%s\n%s" % (json.dumps(case), out[out.find(pm):][:1500]), case)
+            return
+        if rc is None:
+            merged.inconclusive.append("C17 L2 scenario %d: daemon did not exit" % idx)
+            return
+        dev_events = [e for e in events if "/hwmon" in e["path"]]
+        if sensor_ok and ch:
+            touched = set(e["path"] for e in dev_events)
+            allowed = {want_rpm, want_pwm, want_pwm + "_enable", want_temp}
+            wrong = sorted(p for p in touched if p not in allowed)
+            if wrong:
+                merged.add_violation("daemon-touches-a-device-the-user-did-not-name", "%s: touched %s, named %s" % (json.dumps(case), wrong, sorted(allowed)), case)
+            elif want_pwm not in touched:
+                merged.add_violation("daemon-does-not-use-the-named-device", "%s: touched %s" % (json.dumps(case), sorted(touched)), case)
+            else:
+                merged.nontrivial.add("l2-daemon|%d|%s|%d|%d|%s" % (n, by_channel, f_sel, pwm_ch, order))
+        else:
+            which = "hw_sensor" if not sensor_ok else "hw_fan"
+            writes = [e for e in dev_events if e["op"] == "w"]
+            if rc == 0 and "rror" not in out:
+                merged.add_violation("start-up-with-non-existing-device-succeeds:" + which, "%s\n%s" % (json.dumps(case), out[-800:]), case)
+            elif which not in out:
+                merged.add_violation("start-up-error-does-not-name-the-entry:" + which, "%s\n%s" % (json.dumps(case), out[-800:]), case)
+            if writes:
+                merged.add_violation("device-written-although-start-up-failed", "%s: %s" % (json.dumps(case), writes[:5]), case)
+            merged.counters["l2_startups_with_missing_device_rejected"] = merged.counters.get("l2_startups_with_missing_device_rejected", 0) + 1
+        if not merged.samples:
+            merged.samples.append({"kind": "process-level", "case": case, "daemon_exit": rc, "device_events": len(dev_events)})
+    finally:
+        d.close()
+
+
+def c17(p, tier, work, t0, replay):
+    src, vh = build_vh(work)
+    q = tier == "quick"
+    merged = vcheck.run_vh_batches(vh, p, tier, 8 if q else 16, work, 600 if q else 3000)
+    binary = vbuild.build(work, src, ".", os.path.join(work, "fan2go"))
+    run_l2(lambda i, r, m: c17_l2_scenario(binary, work, i, r, m), 24 if q else 400, merged, "process-level", 31)
+    rule = ("two layers. In-process: seeded random fake hwmon trees (1..4 chips with distinct names, fan inputs on random channel subsets of 1..6, temperature inputs on random indices "
+            "incl. features without an input file, pwm controls on all channels, random enumeration ORDER) read by the real hwmon.GetChips() through the gosensors stand-in; per tree 12 fan "
+            "selectors through UpdateFanConfigFromHwMonControllers and 6 sensor selectors through InitializeObjects, bound paths compared with a reference resolution. Process level: "
+            "per generated tree `fan2go detect`, `fan2go sensor --id` (every input file holds a unique number, so the printed value identifies the file) and a daemon start-up whose device "
+            "event log must touch exactly the named files - or fail naming the entry, without panic and without any device write. non-trivial = selector of an existing device; distinct "
+            "by (selector, tree shape, order)")
+    return vcheck.finish(p, tier, "exploration", merged, rule,
+                         TRUST_L1 + ["the stand-in numbers features like libsensors (by type, then number; names fanN / tempN)", "platform patterns match exactly one chip"], t0)
+
+
+PROPS["C17"] = c17
+
+
+def c15_l2_scenario(binary, work, idx, rng, merged):
+    sd = os.path.join(work, "c15-%d" % idx)
+    os.makedirs(sd, exist_ok=True)
+    tree = l2.Tree(os.path.join(sd, "hwmon"))
+    chip = tree.chip("chipa", fans=(1,), temps=(1,), orig_mode=2, orig_pwm=100, rpm=1200)
+    l2.write(os.path.join(sd, "filefan"), "90\n")
+    pwm_map = rng.random() < 0.3
+    min_max = rng.random() < 0.3
+    extra = ""
+    if pwm_map:
+        extra += "    pwmMap:\n      0: 0\n      64: 128\n      192: 255\n"
+    if min_max:
+        extra += "    minPwm: 30\n    maxPwm: 220\n"
+    fans_yaml = ("  - id: f1\n    hwmon:\n      platform: chipa\n      rpmChannel: 1\n    neverStop: false\n    curve: lin\n    controlAlgorithm: direct\n" + extra +
+                 "  - id: ff\n    file:\n      path: %s/filefan\n    curve: lin\n    controlAlgorithm: direct\n" % sd + extra)
+    cfg = l2_basic_config(sd, fans_yaml)
+    pwm1 = os.path.join(chip, "pwm1")
+    rpm1 = os.path.join(chip, "fan1_input")
+    ff = os.path.join(sd, "filefan")
+    driver = {"rules": [{"path": pwm1, "op": "w", "action": "quant", "val": 5}], "plants": []}
+    ops = ["start"] + [rng.choice(["start", "start", "reset", "init"]) for _ in range(rng.randint(1, 3))] + ["start"]
+    case = {"pwmMap": pwm_map, "minMax": min_max, "ops": ops}
+    cls = "pwmMap=%s:minMax=%s" % (pwm_map, min_max)
+    analysed = {"f1": False, "ff": False}
+    trace = []
+    for k, op in enumerate(ops):
+        if op in ("reset", "init"):
+            which = rng.choice(["f1", "ff"])
+            dj = os.path.join(sd, "cli%d.driver.json" % k)
+            l2.write(dj, json.dumps(dict(driver, log=os.path.join(sd, "cli%d.events" % k))))
+            cfgp = os.path.join(sd, "cli.yaml")
+            l2.write(cfgp, cfg)
+            rc, out = run_cli(binary, sd, cfgp, tree.root, ["fan", "--id", which, op], timeout=120, driver=dj)
+            if rc is None or l2.has_panic(out or ""):
+                merged.add_violation("cli-%s-crashes" % op, "%s\n%s" % (json.dumps(case), (out or "")[-1200:]), case)
+                return
+            analysed[which] = (op == "init")
+            trace.append({"op": "%s %s" % (op, which), "exit": rc})
+            continue
+        d = l2.Daemon(binary, sd, cfg, tree.root, driver=driver, timescale=10, name="start%d" % k)
+        try:
+            if not d.wait_for(r"(?s)(Starting controller loop.*){2}", 120):
+                merged.inconclusive.append("C15 L2 scenario %d: regulation did not begin: %s" % (idx, d.output()[-500:].replace("\n", " | ")))
+                return
+            time.sleep(0.4)
+            d.signal(_signal.SIGTERM)
+            if d.wait(90) is None:
+                merged.inconclusive.append("C15 L2 scenario %d: daemon did not exit" % idx)
+                return
+            out = d.output()
+            if l2.has_panic(out):
+                merged.add_violation("daemon-panics-on-restart", "%s\n%s" % (json.dumps(case), out[-1500:]), case)
+                return
+            events = d.events()
+            merged.evaluations += 1
+            for fan, pwmp, rpmp in (("f1", pwm1, rpm1), ("ff", ff, None)):
+                distinct = set(e["val"] for e in events if e["path"] == pwmp and e["op"] == "w")
+                run_len = best = 0
+                for e in events:
+                    if rpmp and e["path"] == rpmp and e["op"] == "r":
+                        run_len += 1
+                        best = max(best, run_len)
+                    elif e["path"] in (pwmp, pwmp + "_enable"):
+                        run_len = 0
+                obs = {"op": "start", "fan": fan, "characterised_before": analysed[fan], "distinct_pwm_values_written": len(distinct), "longest_run_of_rpm_reads": best}
+                trace.append(obs)
+                replay = {"case": case, "trace": trace}
+                if analysed[fan] and (len(distinct) > 4 or best >= 3):
+                    merged.add_violation("fan-analysed-again-on-restart:%s:%s" % (fan, cls), "start no. %d: %s; trace %s" % (k, json.dumps(obs), json.dumps(trace)), replay)
+                    return
+                if pwm_map and len(distinct) > 3 + 4:
+                    merged.add_violation("sweep-although-pwmMap-configured:%s" % fan, "start no. %d: %s" % (k, json.dumps(obs)), replay)
+                    return
+                if min_max and best >= 3 and fan == "f1":
+                    merged.add_violation("init-not-skipped-with-min-max:hwmon", "process level, start no. %d: %s" % (k, json.dumps(obs)), replay)
+                if analysed[fan]:
+                    merged.nontrivial.add("l2|%s|%s|%s" % (fan, cls, ",".join(ops)))
+                analysed[fan] = True
+        finally:
+            d.close()
+    if not merged.samples:
+        merged.samples.append({"kind": "process-level", "case": case, "trace": trace})
+
+
+def c15(p, tier, work, t0, replay):
+    src, vh = build_vh(work)
+    q = tier == "quick"
+    merged = vcheck.run_vh_batches(vh, p, tier, 8 if q else 16, work, 600 if q else 3000)
+    binary = vbuild.build(work, src, ".", os.path.join(work, "fan2go"))
+    run_l2(lambda i, r, m: c15_l2_scenario(binary, work, i, r, m), 8 if q else 120, merged, "process-level", 53)
+    rule = ("two layers. In-process: seeded random sequences of start / reset / init (3..7 operations) against one real bbolt database for hwmon, file and cmd fans, with / without a "
+            "configured pwmMap and minPwm+maxPwm; a start = new fan and controller objects + Run() until the first regulation cycle. Process level: the real daemon is started, "
+            "stopped with SIGTERM and started again, with `fan2go fan --id <id> reset|init` in between, on a hwmon and a file fan. Observed per start from the device event log: distinct "
+            "PWM values written (a sweep writes 256) and the longest run of consecutive RPM reads (the settle loop of the RPM-curve measurement reads >= 10 in a row). non-trivial = "
+            "sequence containing a start of an already characterised fan; distinct by (fan class, operation sequence)")
+    return vcheck.finish(p, tier, "exploration", merged, rule,
+                         TRUST_L1 + ["fixed waits of the controller divided by 50 in-process and by 10 for the daemon", "direct algorithm and constant temperature, so that regulation itself writes one value"], t0)
+
+
+PROPS["C15"] = c15
+
+
+# ---------------------------------------------------------------------------------------------
+# C09 process level: I/O faults injected by the driver into the running real daemon
+
+def c09_l2_scenario(binary, work, idx, rng, merged):
+    sd = os.path.join(work, "c09-%d" % idx)
+    os.makedirs(sd, exist_ok=True)
+    orig_mode = rng.choice([0, 2, 2, 5])
+    tree = l2.Tree(os.path.join(sd, "hwmon"))
+    chip = tree.chip("chipa", fans=(1,), temps=(1,), orig_mode=orig_mode, orig_pwm=100, rpm=1200)
+    l2.write(os.path.join(sd, "filefan"), "90\n")
+    l2.write(os.path.join(sd, "filesensor"), "52000\n")
+    sensor_kind = rng.choice(["hwmon", "file"])
+    curve_kind = rng.choice(["linear", "pid", "function"])
+    sensor_yaml = "  - id: cpu\n    hwmon:\n      platform: chipa\n      index: 1\n" if sensor_kind == "hwmon" else "  - id: cpu\n    file:\n      path: %s/filesensor\n" % sd
+    curves_yaml = {"linear": "  - id: cv\n    linear:\n      sensor: cpu\n      min: 30\n      max: 70\n",
+                   "pid": "  - id: cv\n    pid:\n      sensor: cpu\n      setPoint: 50\n      p: -0.05\n      i: -0.005\n      d: -0.005\n",
+                   "function": "  - id: l1\n    linear:\n      sensor: cpu\n      min: 30\n      max: 70\n  - id: p1\n    pid:\n      sensor: cpu\n      setPoint: 50\n      p: -0.05\n      i: -0.005\n      d: -0.005\n"
+                               "  - id: cv\n    function:\n      type: maximum\n      curves:\n        - l1\n        - p1\n"}[curve_kind]
+    cfg = """dbPath: {sd}/fan2go.db
+fanResponseDelay: 0
+tempSensorPollingRate: 10ms
+rpmPollingRate: 10ms
+controllerAdjustmentTickRate: 10ms
+sensors:
+{sensors}curves:
+{curves}fans:
+  - id: f1
+    hwmon:
+      platform: chipa
+      rpmChannel: 1
+    neverStop: false
+    curve: cv
+    controlAlgorithm: direct
+  - id: ff
+    file:
+      path: {sd}/filefan
+    curve: cv
+    controlAlgorithm: direct
+""".format(sd=sd, sensors=sensor_yaml, curves=curves_yaml)
+    pwm1, en1, rpm1 = os.path.join(chip, "pwm1"), os.path.join(chip, "pwm1_enable"), os.path.join(chip, "fan1_input")
+    sens = os.path.join(chip, "temp1_input") if sensor_kind == "hwmon" else os.path.join(sd, "filesensor")
+    comp = rng.choice(["sensor", "rpm", "pwm-read", "pwm-write", "mode-write"])
+    path, op = {"sensor": (sens, "r"), "rpm": (rpm1, "r"), "pwm-read": (pwm1, "r"), "pwm-write": (pwm1, "w"), "mode-write": (en1, "w")}[comp]
+    kind = rng.choice(["eio", "empty", "garbage"]) if op == "r" else rng.choice(["eio", "eacces"])
+    # the initial analysis performs ~700 operations on the fan's files; faults are placed well inside regulation
+    start = {"sensor": [150, 400], "rpm": [150, 300], "pwm-read": [1200, 2000], "pwm-write": [262, 270, 300], "mode-write": [60, 200]}[comp]
+    start = rng.choice(start)
+    length = rng.choice([1, 10, 0])
+    rule = {"path": path, "op": op, "from": start}
+    if length:
+        rule["to"] = start + length - 1
+    if kind in ("eio", "eacces"):
+        rule.update(action="fail", errno=kind.upper())
+    else:
+        rule.update(action="content", raw="" if kind == "empty" else "1x2\n")
+    rules = [rule, {"path": pwm1, "op": "w", "action": "quant", "val": 5}]
+    case = {"sensor": sensor_kind, "curve": curve_kind, "fault": {"component": comp, "kind": kind, "from_operation": start, "length": length or "for good"}, "orig_mode": orig_mode}
+    cls = "sensor=%s:curve=%s:%s/%s/%s" % (sensor_kind, curve_kind, comp, kind, "permanent" if not length else "window")
+    d = l2.Daemon(binary, sd, cfg, tree.root, driver={"rules": rules, "plants": []}, timescale=10)
+    try:
+        if not d.wait_for(r"(?s)(Starting controller loop.*){2}", 120):
+            if d.p.poll() is None:
+                merged.inconclusive.append("C09 L2 scenario %d: regulation did not begin: %s" % (idx, d.output()[-400:].replace("\n", " | ")))
+                return
+        # let the fault window pass (operation counts, not time, place it; this only gives it room); the temperature
+        # moves so that regulation keeps writing new PWM values
+        t_end = time.time() + 8.0
+        k = 0
+        while time.time() < t_end and d.p.poll() is None:
+            time.sleep(0.05)
+            k += 1
+            l2.write_atomic(sens, "%d\n" % (40000 + (k * 1700) % 30000))
+            ev = d.events()
+            n_path = sum(1 for e in ev if e["path"] == path and e["op"] == op)
+            if n_path > start + max(length, 1) + 150:
+                break
+        alive = d.p.poll() is None
+        if alive:
+            d.signal(_signal.SIGTERM)
+        rc = d.wait(90)
+        out = d.output()
+        merged.evaluations += 1
+        replay = {"case": case, "output_tail": out[-2500:]}
+        if rc is None:
+            merged.inconclusive.append("C09 L2 scenario %d: daemon did not exit (%s)" % (idx, cls))
+            return
+        pm = l2.has_panic(out)
+        if pm:
+            merged.add_violation("daemon-crashes-on-io-fault:" + cls, "%s\n%s" % (json.dumps(case), out[out.find(pm):][:1800]), replay)
+            return
+        events = d.events()
+        hit = any(e.get("action") in ("fail", "content") and e["path"] == path for e in events)
+        # final state (regulation has ended one way or the other)
+        final_pwm, final_mode = l2.read_int(pwm1, -1), l2.read_int(en1, -1)
+        ok = (final_mode == orig_mode and orig_mode != 1) or final_pwm == 255
+        if not ok:
+            wr = [e for e in events if e["path"] == pwm1 and e["op"] == "w"]
+            if wr and wr[-1]["val"] == 255 and wr[-1].get("err"):
+                ok = True
+        if not ok:
+            merged.add_violation("fan-not-restored-after-io-fault:" + cls, "hwmon fan: mode %s (original %s), pwm %s; daemon %s; %s" % (final_mode, orig_mode, final_pwm, "kept running until SIGTERM" if alive else "stopped on its own (exit %s)" % rc, json.dumps(case)), replay)
+        if l2.read_int(os.path.join(sd, "filefan"), -1) != 255:
+            merged.add_violation("file-fan-not-at-full-speed-after-shutdown:" + cls, json.dumps(case), replay)
+        if hit:
+            merged.nontrivial.add("l2|" + cls + "|%d" % start)
+            merged.counters["l2_daemon_" + ("kept_regulating" if alive else "stopped_and_restored")] = merged.counters.get("l2_daemon_" + ("kept_regulating" if alive else "stopped_and_restored"), 0) + 1
+        else:
+            merged.counters["l2_fault_point_not_reached"] = merged.counters.get("l2_fault_point_not_reached", 0) + 1
+        if not merged.samples:
+            merged.samples.append({"kind": "process-level", "case": case, "daemon_kept_running": alive, "exit": rc, "fault_hit": hit})
+    finally:
+        d.close()
+
+
+def c09(p, tier, work, t0, replay):
+    src, vh = build_vh(work)
+    q = tier == "quick"
+    merged = vcheck.run_vh_batches(vh, p, tier, 16 if q else 48, work, 400 if q else 3400)
+    binary = vbuild.build(work, src, ".", os.path.join(work, "fan2go"))
+    run_l2(lambda i, r, m: c09_l2_scenario(binary, work, i, r, m), 16 if q else 300, merged, "process-level", 71)
+    rule = ("two layers. In-process: real controller.Run + sensor monitor on a closed loop; single faults = component {sensor read, RPM read, PWM read, PWM write, mode write} x kind "
+            "{EIO, EACCES, empty, garbage; cmd: exit 1, garbage} x first hit at operation {1, 2, 12} on that path x duration {1, 6, for good}, for fan backend {hwmon, file, cmd} x sensor "
+            "backend {hwmon, file, cmd} x curve {linear, PID, function(linear, PID), function(function)} (seeded sample of 420 in quick, all in thorough) plus seeded random pairs. "
+            "Process level: the real daemon (hwmon + file fan) with one driver fault placed by operation count inside regulation. Oracle: process alive / no Go panic trace, and after "
+            "the window either the curve keeps being evaluated (daemon keeps running) or the fans satisfy the C03 final-state predicate. non-trivial = every injected fault point was "
+            "reached; distinct by (combination, faults)")
+    return vcheck.finish(p, tier, "fault_enumeration", merged, rule,
+                         TRUST_L1 + ["one child process per batch; its death is attributed to the case logged before it ran", "fixed waits of the controller divided by 50 in-process, 10 for the daemon",
+                                     "faults are injected into control cycles only, not into the initial analysis (the statement says 'at any control cycle')"], t0)
+
+
+PROPS["C09"] = c09
